@@ -141,6 +141,11 @@ type KnownHit struct {
 
 var plans = map[string]func(tier string) *Plan{}
 
+// WorkerFromRun makes a (restarted) worker begin at that run index instead of its shard index.
+var WorkerFromRun int
+
+func jsonBytes(v any) ([]byte, error) { return json.Marshal(v) }
+
 // RegisterPlan makes a property runnable.
 func RegisterPlan(prop string, f func(tier string) *Plan) { plans[prop] = f }
 
@@ -173,6 +178,8 @@ func Main() int {
 		dump     = flag.Int("dump", -1, "print the generated trace of run N and exit")
 		racew    = flag.Bool("raceworker", false, "internal: run as race-pass worker (variant C binary)")
 		racerep  = flag.String("racereplay", "", "internal: replay a race workload (variant C binary)")
+		annPath  = flag.String("announce", "", "internal: file in which a C09 child announces each case")
+		fromRun  = flag.Int("fromrun", 0, "internal: first run index of a restarted worker")
 	)
 	flag.Parse()
 	defer func() {
@@ -194,6 +201,10 @@ func Main() int {
 	case *racew:
 		return RaceWorker(*seed, *tier, *shard, *nshard, *out)
 	case *worker:
+		WorkerFromRun = *fromRun
+		if *annPath != "" {
+			C09ChildInit(*annPath)
+		}
 		return workerMain(*prop, *tier, *seed, *shard, *nshard, *out)
 	case *dump >= 0:
 		pf := plans[*prop]
@@ -309,7 +320,11 @@ func WorkerLoop(p *Plan, prop string, seed uint64, shard, nshard int, out string
 			stop = handle(t, v)
 		}
 	}
-	for run := shard; (p.Runs == 0 || run < p.Runs) && !stop; run += nshard {
+	firstRun := shard
+	if WorkerFromRun > firstRun {
+		firstRun = WorkerFromRun
+	}
+	for run := firstRun; (p.Runs == 0 || run < p.Runs) && !stop; run += nshard {
 		if time.Since(start) > budget {
 			break
 		}
